@@ -13,6 +13,8 @@ TAIL = [(20, 'TGT', ['99']), (21, 'TGT2', ["'after'"])]
 
 # literal of each Part 21 literal kind, used as "parameter of the wrong literal kind"
 WRONG = {'int': '7', 'real': '1.5', 'str': "'zz'", 'bin': '"1A"', 'enum': '.RED.', 'ref': '#1', 'list': '(7)', 'typed': 'DINT(7)'}
+# further spellings of a wrong literal kind: a string that contains the instance terminator / a delimiter (the damage must stay confined)
+WRONG_MORE = {'str': ["'z;z'", "'z)z'", "'z,z'", "'#20=TGT(1);'"]}
 
 
 def own_kind(schema, t):
@@ -87,6 +89,17 @@ class Space3(c01.Space):
                     p = list(base)
                     p[k] = lit
                     yield case('wrong-literal-kind', '%s<-%s' % (tk, lk), mk(p), k)
+                for lk, lits in WRONG_MORE.items():
+                    if lk in ok:
+                        continue
+                    for lit in lits:
+                        p = list(base)
+                        p[k] = lit
+                        yield case('wrong-literal-kind', '%s<-%s:%s' % (tk, lk, re.sub(r'[a-z0-9#=\']', '', lit.replace('TGT', '')) or 'x'), mk(p), k)
+            # the unset marker followed by garbage
+            p = list(base)
+            p[k] = '$abc'
+            yield case('garbage-after-unset', tk, mk(p), k)
             # '*' where nothing is derived
             p = list(base)
             p[k] = '*'
@@ -166,14 +179,14 @@ class Space3(c01.Space):
         if len(order) > 1:
             ents = s.tmap()[1]
             redecl = set((d.redeclares, d.name) for n in order for d in ents[n].derived if d.redeclares)
-            defaults = {n: ['*' if (n, a.name) in redecl else self.lits.alts(a.type, short=True)[0] for a in ents[n].attrs] for n in order}
+            defaults = {n: ['*' if (n, a.name) in redecl else self.lits.alts(a.type, short=True)[0] for a in ents[n].attrs if not a.redeclares] for n in order}
             mkc = lambda vals: '#10=(%s);' % ''.join('%s(%s)' % (n.upper(), ','.join(vals[n])) for n in sorted(vals))
             yield {'ent': ename, 'cls': 'none', 'detail': 'conforming-complex', 'text': self.bad_file(mkc(defaults)), 'bad': None, 'complex': True}
             for n in order:
-                for k, a in enumerate(ents[n].attrs):
+                for k, a in enumerate([x for x in ents[n].attrs if not x.redeclares]):
                     if (n, a.name) in redecl:
                         continue
-                    if not ents[n].attrs[-1].optional:
+                    if not [x for x in ents[n].attrs if not x.redeclares][-1].optional:
                         v = {m: list(x) for m, x in defaults.items()}
                         del v[n][k]
                         yield dict(case('too-few-params', 'complex-part', mkc(v)), complex=True, strict=True)
